@@ -45,7 +45,7 @@ func c10Run(line string) string {
 		c10Self = c08U(f[1])
 		c10S = c10New(c10Self)
 		c10Hist = nil
-		return "ok"
+		return c09CheckOracle(f[2:])
 	}
 	if c10S == nil {
 		c10S = c10New(c10Self)
@@ -183,7 +183,7 @@ func c10Rewrite(w *bufio.Writer, r *rng, script []byte, cidr bool) {
 		}
 		f := strings.Fields(line)
 		switch {
-		case f[0] == "reset":
+		case f[0] == "reset", f[0] == "mlook":
 			fmt.Fprintln(w, line)
 		case cidr && r.chance(35):
 			// the same op through the Manager
@@ -280,6 +280,12 @@ func c10Gen(w *bufio.Writer, seed int64, tier string) {
 	}
 	for c := 0; c < locals; c++ {
 		c10GenLocals(w, r)
+		// non-ASCII / ill-formed names through the same tables (and Manager.ProcessDomainRouteAdvertise)
+		var buf bytes.Buffer
+		bw := bufio.NewWriter(&buf)
+		c09GenUnicode(bw, r, 30)
+		bw.Flush()
+		c10Rewrite(w, r, buf.Bytes(), false)
 	}
 	cases, nops := 150, 45
 	if tier == "thorough" {
